@@ -1,55 +1,69 @@
-import H2V.Lemmas.ConnFlowPCap
+import H2V.Lemmas.ConnFlowPMain
 /-
   C02 — never sends more DATA than the peer's stream and connection windows allow.
-  Property theorems only (lemmas: `H2V/Lemmas/ConnFlowP*.lean`, notes: `ConnFlowPNOTES.md`).
+  Property theorems only (lemmas: `H2V/Lemmas/ConnFlowP*.lean`; what is partial and why:
+  `H2V/Lemmas/ConnFlowPNOTES.md`).
 
-  Vocabulary (all defined in the lemma files, about the model `H2V/Model/Conn*.lean`):
-    * `Reach s`        — `s : Streams` is reachable from a new connection by any sequence of the
-                         stream-layer API calls the connection and the user handles make
-                         (`ConnFlowPReach.lean`);
-    * `SafeInv s`      — the send-side safety invariant (`ConnFlowPInv.lean`); it holds in every
-                         reachable state *and between any two model functions inside an API call*
-                         (every function of `prioritize.rs`/`send.rs`/`recv.rs`/`streams.rs` preserves it);
-    * `sumAv slab`     — Σ over the slab of `stream.send_flow.available` (capacity assigned to streams);
-    * `WFr s s1`       — `s1` comes from `s` by steps that change no send window (`ConnFlowPWin.lean`);
-    * `Charged s1 s' k len` — from `s1` to `s'` exactly `len` octets were charged to the connection
-                         window and to the window and capacity of the stream with store key `k`.
+  Vocabulary (defined in the lemma files, about the model `H2V/Model/Conn*.lean`):
+    * `Reach s`      — `s : Streams` is reachable from a new connection by any sequence of the stream-layer
+                       API calls that the connection (`ConnProto.lean`) and the user handles
+                       (`ConnDriver.lean`) make; WINDOW_UPDATE increments and SETTINGS_INITIAL_WINDOW_SIZE
+                       are 31-bit values, which is what `decode_frame` delivers (`decoder_delivers_31_bit_values`);
+    * `ReachH s g d` — the same with two ghost numbers: `g` = credit granted for the connection (65 535 +
+                       accepted WINDOW_UPDATE increments on stream 0), `d` = DATA octets `pop_frame`
+                       returned inside `poll_complete` so far;
+    * `SafeInv s`    — the send-side safety invariant (`ConnFlowPInv.lean`); it holds in every reachable
+                       state *and between any two model functions inside an API call*: every function of
+                       `prioritize.rs`, `send.rs`, `recv.rs`, `streams.rs` preserves it;
+    * `sumAv slab`   — Σ over the slab of `stream.send_flow.available` (capacity assigned to streams);
+    * `WFr s s1`     — `s1` comes from `s` by steps that change no send window;
+    * `Charged s1 s' k len` — from `s1` to `s'` exactly `len` octets were charged to the connection window
+                       and to the window and the capacity of the stream with store key `k`, nothing else;
+    * `PopRel s m r` — the specification of `pop_frame`: if `r` carries a DATA frame there is the state `s1`
+                       (`WFr s s1`, `SafeInv s1`) where the chunk fits (`DataCut`) and from which it is
+                       `Charged`; otherwise `WFr s r.1`;
+    * `pollLog`      — the `pop_frame` calls `poll_complete` makes; `sentIn` their DATA octets.
 -/
 namespace H2V.Props.C02
 open H2V H2V.Model H2V.Model.Conn H2V.Lemmas.ConnFlowP
 
 /-- **Send ledger (safety direction), every reachable state.**  The capacity assigned to streams plus
-    the capacity the connection still holds never exceeds the connection send window, i.e. the
-    credit granted by the peer (65 535 + received WINDOW_UPDATEs − DATA sent, which is what
-    `prio.flow.window_size` is); no stream holds negative capacity, a stream that holds capacity
-    holds at most its own send window (so a stream whose window SETTINGS made zero or negative holds
-    nothing), and every window stays inside `i32`.  Hypotheses: only `Reach s`; WINDOW_UPDATE
-    increments and SETTINGS_INITIAL_WINDOW_SIZE are 31-bit values (what the frame decoder delivers). -/
+    the capacity the connection still holds never exceeds the connection send window (= credit
+    granted − DATA sent, see `sent_never_exceeds_granted`); no stream holds negative capacity; a
+    stream that holds capacity holds at most its own send window — so a stream whose window a
+    SETTINGS change made zero or negative holds nothing and gets nothing out; all windows stay in `i32`. -/
 theorem send_ledger_safe {s : Streams} (h : Reach s) :
     sumAv s.store.slab + s.prio.flow.available.val ≤ s.prio.flow.windowSize.val ∧
     0 ≤ s.prio.flow.available.val ∧ s.prio.flow.windowSize.val ≤ 2147483647 ∧
     ∀ x ∈ s.store.slab,
       0 ≤ x.sendFlow.available.val ∧
       (0 < x.sendFlow.available.val → x.sendFlow.available.val ≤ x.sendFlow.windowSize.val) ∧
-      -2147483648 ≤ x.sendFlow.windowSize.val ∧ x.sendFlow.windowSize.val ≤ 2147483647 := by
-  have hs := h.safe
-  exact ⟨by simpa using hs.ledger, hs.a0, hs.whi, fun x hx =>
-    ⟨(hs.st x hx).av0, (hs.st x hx).avw, (hs.st x hx).wlo, (hs.st x hx).whi⟩⟩
+      -2147483648 ≤ x.sendFlow.windowSize.val ∧ x.sendFlow.windowSize.val ≤ 2147483647 :=
+  ⟨by simpa using h.safe.ledger, h.safe.a0, h.safe.whi, fun x hx =>
+    ⟨(h.safe.st x hx).av0, (h.safe.st x hx).avw, (h.safe.st x hx).wlo, (h.safe.st x hx).whi⟩⟩
 
-/-- non-vacuity: the state of a new connection is reachable (and so is everything the API makes of it) -/
-example : Reach ({ actions := { send := { prioritize := { flow := flowInit } } } } : Streams) :=
-  .init ⟨rfl, rfl⟩
+/-- non-vacuity: a new connection's stream layer is reachable, for every builder configuration,
+    client and server -/
+theorem new_connection_is_reachable (g : Conn.Cfg) (ecp : Bool) (peerFirst : Bytes) :
+    ReachH (Conn.init g).streams 65535 0 ∧ ReachH (Conn.initServer g ecp peerFirst).streams 65535 0 :=
+  ⟨init_reachH g, initServer_reachH g ecp peerFirst⟩
 
-/-- **Every DATA frame `pop_frame` hands out fits the windows at the moment it is cut, and is charged
-    exactly.**  `pop_frame` is the only place where DATA leaves the stream layer.  If, from a state
-    `s` satisfying the invariant, it returns a DATA frame of `len` octets for the stream with store
-    key `fr.key`, then there is the state `s1` at the moment the chunk was cut — reached from `s`
-    without any window changing — in which
-      * `len ≤ max_len` (the peer's max frame size as the codec passes it),
-      * `len ≤` the connection send window,
-      * `len ≤` the capacity assigned to the stream, and, unless `len = 0`, `len ≤` the stream's send window,
-    and from `s1` to the result exactly `len` is charged to the connection window, the stream window
-    and the stream's capacity; nothing else changes (`Charged`). -/
+/-- **History form, connection.**  Along every history: connection send window = credit granted −
+    DATA octets handed to the codec, and `0 ≤ sent ≤ granted`: the flow-controlled octets written for
+    the connection as a whole never exceed the credit the peer has granted so far (the initial
+    65 535 plus the WINDOW_UPDATE increments actually received and accepted). -/
+theorem sent_never_exceeds_granted {s : Streams} {g d : Int} (h : ReachH s g d) :
+    s.prio.flow.windowSize.val = g - d ∧ 0 ≤ d ∧ d ≤ g ∧ Reach s :=
+  history_ledger h
+
+/-- **Every DATA frame fits the windows at the moment it is cut, and is charged exactly.**
+    `pop_frame` is the only place where DATA leaves the stream layer.  If, from a state `s`
+    satisfying the invariant, it returns a DATA frame of `len` octets for the stream with store key
+    `fr.key`, there is the state `s1` at the moment the chunk was cut — reached from `s` without any
+    window changing — in which `len ≤ max_len` (the peer's max frame size), `len ≤` the connection
+    send window, `len ≤` the capacity assigned to the stream, and unless `len = 0`, `len ≤` the
+    stream's send window; from `s1` to the result exactly `len` is charged to the connection window,
+    the stream window and the stream's capacity, and nothing else changes. -/
 theorem data_frame_within_windows {s s' : Streams} (h : SafeInv s) {fuel maxLen len : Nat} {eos : Bool}
     {fr : DataFrame} (hp : Streams.popFrame fuel s maxLen = (s', some (.data len eos fr))) :
     ∃ s1, WFr s s1 ∧ SafeInv s1 ∧
@@ -58,71 +72,50 @@ theorem data_frame_within_windows {s s' : Streams} (h : SafeInv s) {fuel maxLen 
       (len : Int) ≤ (s1.stream fr.key).sendFlow.available.val ∧
       (0 < len → (len : Int) ≤ (s1.stream fr.key).sendFlow.windowSize.val) ∧
       s1.prio.flow.windowSize = s.prio.flow.windowSize ∧
-      Charged s1 s' fr.key len := by
-  have hspec := popFrame_spec h fuel maxLen
-  rw [hp] at hspec
-  obtain ⟨s1, hw, hs1, hc, hch⟩ := hspec
-  have hcap := hs1.sendCapacity_le fr.key
-  have hok := hs1.stream_ok fr.key
-  have h1 := hc.le_cap
-  have h2 := hc.le_win
-  have h0 := hok.av0
-  refine ⟨s1, hw, hs1, hc.le_max, ?_, ?_, ?_, hw.1, hch⟩
-  · cases hget : s1.store.get? fr.key with
-    | none =>
-      have hb : s1.stream fr.key = { key := fr.key, id := 0 } := by unfold Streams.stream; rw [hget]; rfl
-      rw [hb] at h1
-      have : ({ key := fr.key, id := 0 } : Stream).sendFlow.available.asSize = 0 := rfl
-      have := hs1.av_le; have := hs1.a0
-      omega
-    | some st =>
-      rw [stream_of_get hget] at h1 h0
-      have := hs1.st_le (get?_mem hget).1
-      have := hs1.a0
-      rw [asSize_eq] at h1
-      omega
-  · rw [asSize_eq] at h1; omega
-  · intro hpos
-    have hw' := hok.avw
-    rw [asSize_eq] at h1
-    have : 0 < (s1.stream fr.key).sendFlow.available.val := by omega
-    have := hw' this
-    omega
+      Charged s1 s' fr.key len :=
+  data_frame_bounds h hp
 
 /-- **While a window is zero or negative only zero-length DATA is sent against it.** -/
 theorem only_empty_data_on_exhausted_window {s s' : Streams} (h : SafeInv s) {fuel maxLen len : Nat} {eos : Bool}
     {fr : DataFrame} (hp : Streams.popFrame fuel s maxLen = (s', some (.data len eos fr))) :
     ∃ s1, WFr s s1 ∧
       (s1.prio.flow.windowSize.val ≤ 0 → len = 0) ∧
-      ((s1.stream fr.key).sendFlow.windowSize.val ≤ 0 → len = 0) := by
-  obtain ⟨s1, hw, _, _, h1, _, h3, _, _⟩ := data_frame_within_windows h hp
-  refine ⟨s1, hw, fun h0 => by omega, fun h0 => ?_⟩
-  by_cases hl : len = 0
-  · exact hl
-  · have := h3 (by omega); omega
+      ((s1.stream fr.key).sendFlow.windowSize.val ≤ 0 → len = 0) :=
+  empty_data_on_exhausted_window h hp
 
-/-- **Windows move only when DATA goes out.**  When `pop_frame` returns anything but a DATA frame
-    (HEADERS, RST_STREAM, PUSH_PROMISE, or nothing) no send window has changed. -/
-theorem windows_untouched_without_data {s : Streams} (h : SafeInv s) (fuel maxLen : Nat)
+/-- **… for every DATA frame `poll_complete` writes, from every reachable state**: each `pop_frame`
+    call it makes (`pollLog`) starts in a state satisfying the invariant and obeys `PopRel` (so the
+    two theorems above apply to every frame), and these calls account for the *whole* change of the
+    connection window — no DATA escapes the log. -/
+theorem every_data_frame_of_poll_complete_fits {s : Streams} (h : Reach s) (fuel : Nat) (w : Writer) (io : Tio)
+    (tag : String) :
+    (∀ c ∈ pollLog fuel s w io tag, SafeInv c.pre ∧ PopRel c.pre c.maxLen c.out) ∧
+    (Streams.pollComplete fuel s w io tag).1.prio.flow.windowSize.val =
+      s.prio.flow.windowSize.val - sentIn (pollLog fuel s w io tag) :=
+  poll_complete_frames h fuel w io tag
+
+/-- at the moment a chunk is cut neither `FlowControl::send_data` call can fail: the `assert!`s
+    (panics) and checked subtractions of `send_data` on the stream and on the connection hold -/
+theorem flow_control_asserts_hold {s1 : Streams} (h : SafeInv s1) {k len maxLen : Nat} (hc : DataCut s1 k len maxLen) :
+    ((s1.stream k).sendFlow.sendData len).2 = .ok () ∧
+    ((s1.prio.flow.assignCapacity len).1.sendData len).2 = .ok () :=
+  send_data_cannot_fail h hc
+
+/-- **Windows move only when DATA goes out** (or WINDOW_UPDATE / SETTINGS come in): when `pop_frame`
+    returns anything but DATA no send window changed; the capacity-moving functions of
+    `prioritize.rs` change no window. -/
+theorem windows_untouched_without_data {s : Streams} (h : SafeInv s) (fuel maxLen id n : Nat)
     (hne : ∀ len e fr, (Streams.popFrame fuel s maxLen).2 ≠ some (.data len e fr)) :
-    WFr s (Streams.popFrame fuel s maxLen).1 := by
-  have hspec := popFrame_spec h fuel maxLen
-  unfold PopRel at hspec
-  split at hspec
-  · rename_i heq; exact absurd heq (hne _ _ _)
-  · exact hspec
-
-/-- the capacity-moving functions of `prioritize.rs` change no window: the windows are charged by
-    DATA, WINDOW_UPDATE and SETTINGS only -/
-theorem capacity_moves_keep_windows (s : Streams) (id n : Nat) :
+    WFr s (Streams.popFrame fuel s maxLen).1 ∧
     WFr s (s.tryAssignCapacity id) ∧ WFr s (s.assignConnectionCapacity n) ∧ WFr s (s.reserveCapacity id n) ∧
     WFr s (s.reclaimAllCapacity id) ∧ WFr s (s.reclaimReservedCapacity id) :=
-  ⟨(WFr.refl s).tryAssignCapacity id, (WFr.refl s).assignConnectionCapacity n, (WFr.refl s).reserveCapacity id n,
+  ⟨no_data_no_window_change h fuel maxLen hne,
+   (WFr.refl s).tryAssignCapacity id, (WFr.refl s).assignConnectionCapacity n, (WFr.refl s).reserveCapacity id n,
    (WFr.refl s).reclaimAllCapacity id, (WFr.refl s).reclaimReservedCapacity id⟩
 
-/-- the invariant is not an artefact of unreachable intermediate states: it holds *inside* an API
-    call too — e.g. after `poll_complete` (all the DATA it wrote), after a WINDOW_UPDATE of 31 bits,
-    after SETTINGS with a 31-bit initial window size (up or down, windows may go negative) -/
+/-- the invariant survives the window events themselves, from any state satisfying it (in
+    particular in the middle of an API call): all the DATA `poll_complete` writes, a WINDOW_UPDATE, a
+    SETTINGS_INITIAL_WINDOW_SIZE change up or down (stream windows may go negative) -/
 theorem invariant_preserved_by_the_window_events {s : Streams} (h : SafeInv s) :
     (∀ fuel w io tag, SafeInv (Streams.pollComplete fuel s w io tag).1) ∧
     (∀ id inc, inc ≤ 2147483647 → SafeInv (s.recvWindowUpdate id inc).1) ∧
@@ -131,7 +124,14 @@ theorem invariant_preserved_by_the_window_events {s : Streams} (h : SafeInv s) :
    fun id inc hinc => h.recvWindowUpdate id inc hinc,
    fun vals b hv => h.applyRemoteSettings vals b hv⟩
 
--- ----------------------------------------------------------------- non-vacuity of `SafeInv` + DATA hypotheses
+/-- the two argument bounds `Reach` asks for are met by whatever the frame decoder yields: a
+    WINDOW_UPDATE increment is below `2^31`, SETTINGS_INITIAL_WINDOW_SIZE at most `2^31 - 1`
+    (`FrameOk`), for every frame `decode_frame` returns -/
+theorem decoder_delivers_31_bit_values {r r' : CodecRead.Reader} {bytes : Bytes} {f : Frame.Frame}
+    (h : CodecRead.decodeFrame r bytes = (r', .frame f)) : FrameOk f :=
+  decodeFrame_ok h
+
+-- ----------------------------------------------------------------- non-vacuity of the hypotheses
 
 /-- a concrete state: one open stream (key 0, id 1) with a 10-octet DATA frame queued, 10 octets of
     capacity assigned, stream window 100, connection window 65 535 of which 65 525 unassigned -/
@@ -148,18 +148,28 @@ example : SafeInv exState := by
   simp [exState] at hx; subst hx
   exact ⟨by decide, by intro _; decide, by decide, by decide⟩
 
+/-- `pop_frame` does return a DATA frame from it (hypothesis `hp` of the DATA theorems) -/
 example : Streams.popFrame 4 exState 16384 =
     ((Streams.popFrame 4 exState 16384).1, some (.data 10 true { key := 0, sid := 1, rest := 0, eos := true })) := by
   rfl
 
+/-- … and nothing from an empty one (hypothesis `hne`) -/
 example : ∀ len e fr, (Streams.popFrame 4 ({} : Streams) 16384).2 ≠ some (.data len e fr) := by
   intro len e fr h; cases h
+
+/-- a WINDOW_UPDATE frame that decodes (hypothesis of `decoder_delivers_31_bit_values`) -/
+example : ∃ r' f, CodecRead.decodeFrame (CodecRead.Reader.new 16384) [0, 0, 4, 8, 0, 0, 0, 0, 0, 0x80, 0, 1, 0] =
+    (r', .frame f) := ⟨_, _, rfl⟩
 
 end H2V.Props.C02
 
 #print axioms H2V.Props.C02.send_ledger_safe
+#print axioms H2V.Props.C02.new_connection_is_reachable
+#print axioms H2V.Props.C02.sent_never_exceeds_granted
 #print axioms H2V.Props.C02.data_frame_within_windows
 #print axioms H2V.Props.C02.only_empty_data_on_exhausted_window
+#print axioms H2V.Props.C02.every_data_frame_of_poll_complete_fits
+#print axioms H2V.Props.C02.flow_control_asserts_hold
 #print axioms H2V.Props.C02.windows_untouched_without_data
-#print axioms H2V.Props.C02.capacity_moves_keep_windows
 #print axioms H2V.Props.C02.invariant_preserved_by_the_window_events
+#print axioms H2V.Props.C02.decoder_delivers_31_bit_values
